@@ -113,16 +113,105 @@ def register(pid: str, **kw) -> None:
 
 
 def replay(ctx: fw.Ctx, spec: dict, rec: dict) -> int:
-    fn = spec.get("replay")
-    if not fn:
-        print("no replay function for this property")
-        return 2
-    ok, msg = fn(rec)
-    print(msg)
-    if ok:
+    """Re-run exactly the recorded case against the real code and its oracle. Exit 1 + VIOLATION line if it still fails."""
+    path = sys.argv[-1]
+    if rec.get("no_failing_input_found"):
+        # the replay of an unproved obligation is the obligation itself
+        import run as runmod
+        rep = runmod.regenerate(ctx)
+        probs = [p for p in rep.get("problems", []) if p["extractor"].lower() in [e.lower() for e in spec.get("extractors", [])]]
+        lean = fw.lean_check(ctx.prop, spec["obligations"], spec["modules"], False)
+        if lean.broken or probs:
+            print(f"still unproved: {lean.broken} {[p['what'] for p in probs]}")
+            print(f"VIOLATION property={ctx.prop} replay={path} no-failing-input-found")
+            return 1
+        print("all obligations check again")
         return 0
-    print(f"VIOLATION property={ctx.prop} replay={sys.argv[-1]}")
-    return 1
+    case = rec["case"]
+    kind = case.get("kind") if isinstance(case, dict) else None
+    st = ctx.stream("replay")
+    if kind == "program":
+        styles = [case["style"]] if "style" in case else []
+        eval_programs(ctx, st, [case["source"]], styles, check_tree=(not styles) or ctx.prop in ("C03", "C07"), check_format=bool(styles),
+                      fixpoint=(ctx.prop == "C15"), must_be_valid=False)
+    elif kind == "lex":
+        eval_lex(st, [case["source"]])
+    elif kind == "text":
+        if ctx.prop == "C10":
+            eval_accept(st, [case["source"]])
+        else:
+            eval_total(st, [case["source"]])
+    elif kind == "string":
+        ch = dict(string_contexts(case["value"]))[case["context"]]
+        eval_ast_roundtrip(st, [({"kind": "string", "value": case["value"], "context": case["context"]}, ch, case.get("style"))])
+    elif kind == "exp":
+        status, ast = tparse(case["source"])
+        if status != "ok":
+            st.fail(f"source does not parse: {status}", case)
+        else:
+            eval_exp_roundtrip(st, [(ast.statements[0].expressions[0], case["style"])])
+    elif kind == "pair":
+        (sa, a), (sb, b) = tparse(case["a"]), tparse(case["b"])
+        if sa == "ok" and sb == "ok":
+            same = struct_dump(a) == struct_dump(b)
+            st.record(case)
+            if (a == b) != same:
+                st.fail("== disagrees with structural identity", case)
+    elif kind == "filetree":
+        tree = {k: case[k] for k in ("files", "main", "search")}
+        tree["dirs"] = case.get("dirs", [])
+        if "fault" in case:
+            status, res = resolve_tree(tree)
+            st.record(case)
+            if status != "dep":
+                st.fail(f"uninlinable require: {status} {res!r}", case)
+        else:
+            eval_resolve(ctx, st, [tree], [case["style"]] if "style" in case else [None, "min"])
+    elif kind == "history":
+        root = materialise(C14_TREE)
+        try:
+            w = ApiWorld(root)
+            st.record(case)
+            for i, op in enumerate(case["calls"]):
+                op = tuple(op)
+                got = w.call(op)
+                want = isolated_result(op, [tuple(o) for o in case["calls"][: i + 1]], root)
+                if got != want or got.startswith(("MUTATED", "EXC")):
+                    st.fail(f"call {i} ({op[0]}): {got[:200]} vs isolated {want[:200]}", case)
+                    break
+        finally:
+            shutil.rmtree(root, ignore_errors=True)
+    elif kind == "comments":
+        status, ast = tparse(case["source"])
+        fs, out = tformat(ast, None) if status == "ok" else ("x", None)
+        st.record(case)
+        if fs != "ok":
+            st.fail(f"parse/format failed: {status} {fs}", case)
+        else:
+            ans = drive([("reflex", hx(out))])[0]
+            got = [g for g in out_comments(ans) if g[0] != "tumfl"] if ans.startswith("ok") else None
+            exp = [tuple(e) for e in case["expected"]]
+            if got is None or [g[0] for g in got] != [e[0] for e in exp] or any(e[1] is not None and g[1] != e[1] for g, e in zip(got, exp)):
+                st.fail("leading comments not preserved", dict(case, output=out, got=got))
+    else:
+        print("this replay file has no replayable case kind; re-run the check with VERIF_SEED=%s" % rec.get("seed"))
+        return 2
+    for f in st.failures:
+        print("still fails:", f.what)
+    if st.failures:
+        print(f"VIOLATION property={ctx.prop} replay={path}")
+        return 1
+    print("the recorded case passes now")
+    return 0
+
+
+def exp_src(e) -> str:
+    """fully parenthesised source of an operator tree over names"""
+    if isinstance(e, A.BinOp):
+        return f"({exp_src(e.left)} {e.op.value} {exp_src(e.right)})"
+    if isinstance(e, A.UnOp):
+        return f"({e.op.value} {exp_src(e.right)})"
+    return e.variable_name
 
 
 # =========================================================================== C11
@@ -187,7 +276,7 @@ def eval_exp_roundtrip(st: fw.Stream, cases: list[tuple[Any, dict]]):
         ch = chunk_of_exp(e)
         want = "ok " + absast.abs_chunk(ch)
         status, out = tformat(ch, mkstyle(sd))
-        desc = {"expected_tree": want[3:], "style": sd}
+        desc = {"kind": "exp", "source": "x = " + exp_src(e), "expected_tree": want[3:], "style": sd}
         st.record(desc, key=want + json.dumps(sd, sort_keys=True))
         if status != "ok":
             st.fail(f"format raised/timeout: {status} {out!r}", desc)
@@ -221,12 +310,6 @@ def run_c11(ctx: fw.Ctx) -> None:
         st3.exhaustive = True
 
 
-def replay_exp(rec: dict):
-    case = rec["case"]
-    src = "x = " + case.get("source", "") if "source" in case else None
-    return False, "replay: re-run the check with the same VERIF_SEED; case: " + json.dumps(case)[:2000]
-
-
 register(
     "C11",
     run=run_c11,
@@ -237,7 +320,6 @@ register(
     rule="operator trees built as tumfl ASTs, formatted under a style, re-read by the Lean Spec parser and compared with the tree; "
          "distinct = distinct (tree, options) pairs; every case has >= 2 operators",
     partial_hypotheses=["atoms are opaque: the theorem is about operator skeletons; that emitted pieces equal `yld (par d t)` is checked by the T2 stream, not proved"],
-    replay=replay_exp,
 )
 
 
@@ -899,6 +981,7 @@ def eval_ast_roundtrip(st: fw.Stream, cases: list[tuple[dict, A.Chunk, dict | st
         sty = None if sd is None else (MinifiedStyle if sd == "min" else mkstyle(sd))
         status, out = tformat(ch, sty)
         d = dict(desc, style=sd)
+        d.setdefault("kind", "string")
         st.record(d, key=json.dumps(d, sort_keys=True, default=str))
         if status != "ok":
             st.fail(f"format raised or did not terminate: {status} {out!r}", d)
@@ -2769,6 +2852,24 @@ LEAN_OBLIGATIONS.update({
         extractors=["Schema"],
         tie_names=["T1:Schema"],
         partial_hypotheses=["Token.__eq__ and AttributedName.__eq__ are part of the oracle stream, not of the generic model (atoms are compared as rendered values)"],
+    ),
+    "C04": dict(
+        modules=["Tumfl.Props.C04"],
+        obligations=["Tumfl.Props.C04_lookup", "Tumfl.Props.C04_lookup_none", "Tumfl.Props.C04_no_require", "Tumfl.Props.C12_untouched", "Tumfl.Props.C12_errors"],
+        extractors=["Ladder", "LexTables", "FmtTables", "Brackets"],
+        tie_names=["T2:resolve (model resolver on the abstract file system vs the real resolver on a real directory tree: whole resulting AST or the error)",
+                   "T2:format (formatting of the result goes through the same model)"],
+        partial_hypotheses=["faithfulness (the spliced statements are exactly the file's, everything else unchanged) is T2 + the inlining oracle, not a theorem",
+                            "K4 (statement-level require of a file with a top-level return) is a known finding"],
+    ),
+    "C12": dict(
+        modules=["Tumfl.Props.C04"],
+        obligations=["Tumfl.Props.C12_wrong_args_stmt", "Tumfl.Props.C12_wrong_args_expr", "Tumfl.Props.C12_missing_stmt", "Tumfl.Props.C12_missing_expr",
+                     "Tumfl.Props.C12_untouched", "Tumfl.Props.C12_errors", "Tumfl.Props.C04_lookup_none"],
+        extractors=["Ladder", "LexTables"],
+        tie_names=["T2:resolve (faulty trees: exception kind and token of the offending call)"],
+        partial_hypotheses=["`the first such call in visit order raises` and termination of statement-level cycles: T2 and oracle streams; is_file on a directory: the abstract "
+                            "file system has files and directories as disjoint sets, tied by T2 on real trees with directory traps"],
     ),
     "C20": dict(
         modules=["Tumfl.Props.C16"],
